@@ -93,6 +93,42 @@ class StepSocket(sim.SimSocket):
         pass
 
 
+class EntityLock(object):
+    """stand-in for the entity-wide configuration lock (threading.Lock of AEBase): every association of the entity needs it
+    (copy_context_def_list), so a thread that WAITS FOR ITS PEER while holding it makes all the others wait for that peer
+    too.  Records such waits; acquiring it twice in one thread (it is not re-entrant) would block for ever."""
+    installed = []
+
+    def __init__(self):
+        self.depth = 0
+        self.waits = []
+        EntityLock.installed.append(self)
+
+    def acquire(self, blocking=True, timeout=-1):
+        if self.depth:
+            raise api.Hang('non-reentrant entity lock acquired twice by one thread')
+        self.depth += 1
+        return True
+
+    def release(self):
+        self.depth -= 1
+
+    def locked(self):
+        return self.depth > 0
+
+    def __enter__(self):
+        return self.acquire()
+
+    def __exit__(self, *a):
+        self.release()
+
+    @classmethod
+    def note_wait(cls, what):
+        for lk in cls.installed:
+            if lk.depth:
+                lk.waits.append(what)
+
+
 class _IdleDeque(collections.deque):
     owner = None
 
@@ -165,6 +201,7 @@ class LiveProvider(dulprovider.DULServiceProvider):
         return not self._vt_killed and self._vt_pump.err is None
 
     def receive(self, timeout):
+        EntityLock.note_wait('receive(timeout=%r): waiting for the peer' % (timeout,))
         pump = self._vt_pump
         pump.run()
         rounds = 0
@@ -271,6 +308,7 @@ def install(clock):
     asceprovider.time = A.NoSleep
     asceprovider.socketserver = _SocketServerStub
     StepSocket.io_hook = None
+    EntityLock.installed = []
     LiveDulModule.created = []
     LiveDulModule.queue = []
     LiveDulModule.next_peer = None
